@@ -4,18 +4,19 @@ import json, subprocess
 from pathlib import Path
 ROOT = Path(__file__).resolve().parent.parent
 
-CLAIMED = {
- "C10": dict(
-   technique="Coq proof (model = Python indexing spec, unbounded) + exhaustive-grid correspondence model/implementation/Python oracle",
-   text="Machine-checked theorems (Coq 8.16, no axioms) that the Gallina transcription of pythonic_index/pythonic_slice, the Stream default "
-        "methods, the accessors and the write-addressing helpers equals Python's indexing/slicing for every list length and every integer "
-        "index/bound, never panics, and that writes address the position reads do. The model is tied to /repo on every run by an exhaustive "
-        "grid (8 kinds x len 0..5 x all small and extreme indices x every surface form) run through both and through an independent Python oracle.",
-   note="Trusted: Coq kernel; hand-written model Seq/Index.v (tie to code is the correspondence run, i.e. differential testing on the grid); "
-        "extraction+OCaml runner; Rust harness; Python oracle. Element reads of the per-kind wrappers (UTF-8 soft decoding, dict indexing) are compared "
-        "by correspondence only. uncons/unsnoc/only are checked against the Python oracle only.",
-   design="6-C10"),
-}
+import importlib, sys
+sys.path.insert(0, str(ROOT / "driver"))
+
+def load_claimed():
+    """a property is claimed when driver/props/<id>.py exists and defines MANIFEST"""
+    out = {}
+    for f in sorted((ROOT / "driver" / "props").glob("c[0-9]*.py")):
+        mod = importlib.import_module("props." + f.stem)
+        if getattr(mod, "MANIFEST", None):
+            out[f.stem.upper()] = mod.MANIFEST
+    return out
+
+CLAIMED = load_claimed()
 PENDING_REASON = "check not built yet in this session (planned, see DESIGN.md section 6); not claimed until its theorems and correspondence run"
 
 def main():
